@@ -2432,6 +2432,12 @@ class ResetIndex(Elemwise):
                 # replace the projection of the former index with the actual index
                 subs = Projection(self, name)
                 predicate = parent.predicate.substitute(subs, Index(self.frame))
+                # the other columns used by the predicate come from the frame
+                if self.frame.ndim == 1:
+                    subs = Projection(self, self.frame._meta.name)
+                    predicate = predicate.substitute(subs, self.frame)
+                else:
+                    predicate = predicate.substitute(self, self.frame)
             elif self.frame.ndim == 1 and not self.operand("drop"):
                 name = self.frame._meta.name
                 # Avoid Projection since we are already a Series
